@@ -98,6 +98,10 @@ def parse_ts(text):
 
 
 def _amount(rng, style, lo=Decimal("0.00000001"), hi=Decimal("50")):
+    if style == "big":
+        # whale-sized holdings of micro-priced tokens: integers up to 9e12 (exactly representable, exactly rendered by %.11f)
+        v = Decimal(rng.randint(1, 9000)) * Decimal(10) ** rng.choice([6, 8, 9, 9])
+        return max(lo, v)
     if style == "int":
         v = Decimal(rng.randint(1, 40))
     elif style == "dec2":
@@ -112,7 +116,9 @@ def _amount(rng, style, lo=Decimal("0.00000001"), hi=Decimal("50")):
     return v.normalize() if v == v.to_integral() else v
 
 
-def _price(rng):
+def _price(rng, micro=False):
+    if micro:
+        return Decimal(rng.randint(1, 99999)) / Decimal(10) ** rng.choice([8, 9, 10])
     k = rng.random()
     if k < 0.2:
         return Decimal(rng.randint(1, 30000))
@@ -126,6 +132,8 @@ def _frac(rng, total, style):
     q = Decimal(10) ** -8
     if total <= q:
         return total
+    if style == "big" and total >= 1000:
+        return (total * rng.randint(1, 999) / 1000).to_integral_value()
     if style == "int" and total >= 2:
         return Decimal(rng.randint(1, int(total) - (1 if total == int(total) else 0) or 1))
     part = (total * Decimal(rng.randint(1, 999)) / 1000).quantize(q)
@@ -139,6 +147,8 @@ def _frac(rng, total, style):
 def gen_asset_rows(rng, asset, exchanges, holders, flags, start_year):
     """Rows for one asset in chronological (instant) order. Returns list of (table, row)."""
     style = flags.get("amount_style") or rng.choice(["int", "dec2", "dec8", "mixed", "mixed"])
+    if flags.get("whales") and rng.random() < 0.5:
+        style = "big"
     n = flags.get("n_rows") or rng.choice([1, 2, 3, 4, 5, 6, 8, 10, 12, 16, 20, 25])
     accounts = [(e, h) for e in exchanges for h in holders]
     bal = {}
@@ -154,7 +164,7 @@ def gen_asset_rows(rng, asset, exchanges, holders, flags, start_year):
     def price_of():
         if price_pool and rng.random() < 0.8:
             return rng.choice(price_pool)
-        return _price(rng)
+        return _price(rng, micro=(style == "big"))
 
     def next_t(kind=None):
         nonlocal t
@@ -369,7 +379,7 @@ def gen_headers(rng, flags):
 
 def gen_world(rng, flags=None, country="us"):
     flags = dict(flags or {})
-    n_assets = flags.get("n_assets") or rng.choice([1, 1, 2, 2, 3, 4])
+    n_assets = flags.get("n_assets") or rng.choice([1, 1, 2, 2, 3, 4, 5, 6])
     assets = rng.sample(ASSET_POOL, n_assets)
     if flags.get("confusable"):
         exchanges = rng.sample(CONFUSABLE_EXCHANGES, flags.get("n_exchanges") or rng.choice([2, 3, 4]))
